@@ -188,6 +188,13 @@ SLICES = {
                   "consts": {"quick": {"K": 2, "Dev": "{}", "MechBound": 4, "Ls": "{0, 1, 2, 31, 32, 33, 128, 129, 257}", "Ms": "{}", "Fam": '"sig"'},
                              "thorough": {"K": 2, "Dev": "{}", "MechBound": 4, "Ls": "{0, 1, 2, 3, 31, 32, 33, 64, 127, 128, 129, 255, 256, 257, 1000, 2000}", "Ms": "{}", "Fam": '"sig"'}},
                   "flip": {"quick": 0, "thorough": 0}, "chunks": "7"},
+    # every length of a range exactly once (honest runs): thresholds can hide at any size
+    "sweep": {"module": "MC_shape", "invariants": ["C01", "C03", "C05", "Refines", "Export"],
+              "consts": {"quick": {"K": 2, "Dev": "{}", "MechBound": 4, "Ls": "{" + ", ".join(str(i) for i in range(0, 201)) + "}",
+                                   "Ms": "{" + ", ".join(str(i) for i in range(0, 201)) + "}", "Fam": '"sweep"'},
+                         "thorough": {"K": 2, "Dev": "{}", "MechBound": 4, "Ls": "{" + ", ".join(str(i) for i in range(0, 521)) + "}",
+                                      "Ms": "{" + ", ".join(str(i) for i in range(0, 301)) + "}", "Fam": '"sweep"'}},
+              "flip": {"quick": 0, "thorough": 0}, "chunks": "7"},
     "shape_proof": {"module": "MC_shape", "invariants": ["C03", "C04", "Refines", "Export"],
                     "consts": {"quick": {"K": 2, "Dev": "{}", "MechBound": 4, "Ls": "{0, 1, 2, 32, 33, 129, 257}", "Ms": "{}", "Fam": '"proof"'},
                                "thorough": {"K": 2, "Dev": "{}", "MechBound": 4, "Ls": "{0, 1, 2, 3, 31, 32, 33, 64, 127, 128, 129, 255, 256, 257, 1000}", "Ms": "{}", "Fam": '"proof"'}},
@@ -198,7 +205,7 @@ SLICES = {
                     "flip": {"quick": 0, "thorough": 0}, "chunks": "7"},
 }
 
-HOOK_COMMITS = ["5b39d5a"]
+HOOK_COMMITS = ["5b39d5a", "39ac302"]
 
 # implementation -> specification: trace families (driver of record.rs) and sizes per tier
 TRACES = {
@@ -213,15 +220,15 @@ CLTXT = 'MC_cl.tla evaluates the CL03 specification on bounded instances (toy RS
 MC_TEXT = "TLC checks the invariant(s) exhaustively on the bounded slice(s) listed in the evidence (constants recorded there), in the toy interpretation of the mechanical transcription of the operations (Mech) against the provenance-level statement of the property (Prov); every behaviour of the slice is exported and replayed into the real library under several concretisations of its abstract octets, where decisions, lengths and (for deterministic operations) octets must agree with the specification; "
 
 PROPS = {
-    "C01": {"slices": ["sig", "shape_sig"], "traces": "sig", "tally": ["C01"], "title": "BBS signature completeness",
+    "C01": {"slices": ["sig", "shape_sig", "sweep"], "traces": "sig", "tally": ["C01"], "title": "BBS signature completeness",
             "level_text": MC_TEXT + "slice `sig`: 2 suites, headers absent/empty/non-empty, every message vector over 3 atoms (one the empty message) up to MaxL, absent-vs-empty presentations, encode/decode round trip."},
     "C02": {"slices": ["sig", "shape_sig"], "traces": "sig", "tally": ["C02"], "title": "BBS signature binding",
             "level_text": MC_TEXT + "slice `sig`: every single edit of the message vector (change, insert, delete, swap), every other header, the other key, the other suite, the blind interface, and tampered encodings - replayed with single-bit flips of the affected fields of the 80 octets (all 640 bits in the thorough tier)."},
-    "C03": {"slices": ["proof", "shape_proof"], "traces": "proof", "tally": ["C03"], "title": "BBS proof completeness",
+    "C03": {"slices": ["proof", "shape_proof", "sweep"], "traces": "proof", "tally": ["C03"], "title": "BBS proof completeness",
             "level_text": MC_TEXT + "slice `proof`: every message vector up to MaxL, EVERY disclosure subset (also as unsorted / duplicated / absent index lists), header and presentation header absent/empty/non-empty, round trip; the proof length 272 + 32 U is checked on the real proofs, which are produced with production randomness and recomputed from the recorded draws."},
     "C04": {"slices": ["proof_adv", "shape_proof"], "traces": "proof", "tally": ["C04"], "title": "BBS proof soundness",
             "level_text": MC_TEXT + "slice `proof_adv`: every single edit of the verifier's statement (message, index, pair added/removed, lists of different lengths, duplicate index with forged message, header, presentation header, key, suite, interface), every tampered field and +-1 scalar of the encoding (with bit flips), and the attacker's family of proofs assembled from public data (identity / multiples of the verifier's Bv / unrelated points, responses solved) through from_bytes and through serde."},
-    "C05": {"slices": ["blind", "shape_blind"], "traces": "blind", "tally": ["C05"], "title": "Blind BBS completeness",
+    "C05": {"slices": ["blind", "shape_blind", "sweep"], "traces": "blind", "tally": ["C05"], "title": "Blind BBS completeness",
             "level_text": MC_TEXT + "slice `blind`: (L, M) up to the bounds, with and without commitment (and commitment to zero messages), ALL pairs of disclosure choices, absent/empty presentations, round trips; blind signature octets equal the specification's."},
     "C06": {"slices": ["blind_adv", "shape_blind", "protocol"], "traces": "blind", "tally": ["C06"], "title": "Blind BBS soundness",
             "level_text": MC_TEXT + "slice `blind_adv`: tampered / truncated / extended / cross-suite commitments shown to the signer (with bit flips of the commitment octets), every single edit of the inputs of verify_blind_sign and blind_proof_verify including L +- 1, aliasing of committed and signer messages, duplicate indexes with forged messages, plain-interface verification; slice `protocol`: issuance and presentation as a multi-party protocol over an attacker-controlled network (mix-and-match of commitments and signatures between the sessions of two holders, replay of presentations under another verifier nonce), every interleaving within the message bound, invariants NoMixAndMatch, NoReplay, Unlinkable."},
@@ -680,9 +687,9 @@ def run_det_property(prop, tier):
         inject = " ".join(r.group(1).split()) if r else None
     # API slices: octet / decision agreement (C10) or cross-suite / cross-interface rejections (C11)
     api = {}
-    slices = (["sig", "proof", "blind", "shape_sig", "update"] if prop == "C10" else ["sig", "proof_adv", "blind_adv"])
+    slices = (["sig", "proof", "blind", "shape_sig", "sweep", "update"] if prop == "C10" else ["sig", "proof_adv", "blind_adv"])
     if tier == "quick":
-        slices = slices[:4] if prop == "C10" else slices
+        slices = slices[:5] if prop == "C10" else slices
     samples = list(rep["samples"][:2])
     tot_states, tot_trans, ncases = stats["distinct"], stats["states"], n
     for name in slices:
@@ -979,6 +986,7 @@ def selftest():
     expect_violation("MC_codec", {"Dev": '{"F2"}', "MaxN": 1}, ["C08"], "C08", "F2", init="Init")
     expect_violation("MC_codec", {"Dev": '{"F3", "F5"}', "MaxN": 1}, ["C08"], "C08", "F3F5", init="Init")
     expect_violation("MC_codec", {"Dev": '{"F4"}', "MaxN": 1}, ["C09"], "C09", "F4", init="Init")
+    expect_violation("MC_codec", {"Dev": '{"F14"}', "MaxN": 1}, ["C08"], "C08", "F14", init="Init")
     for dev, inv in (("F7", "C13toy"), ("F8", "C16anchored"), ("F13", "C16tolerance"), ("F9", "C17noOpenings"), ("F10", "C19masks")):
         expect_violation("MC_cl", {"Dev": '{"%s"}' % dev, "MaxN": 1, "Bound": 12}, [inv], inv, dev, init="Init")
     rc, out = tlc("MC_rng", RNG_CFG % "TRUE", "selftest_rng", workers=4)
